@@ -906,6 +906,7 @@ def run(prog, ctx):
     common.index_param_rule(prog, ctx, "S14")
     s13_entry_subscripts(prog, ctx, fns)
     s15_deref_known_null(prog, ctx, fns)
+    s16_guard_complete(prog, ctx, fns)
     s11_stack_alloc(prog, ctx, fns, "S11")
     s9(prog, ctx, reach)
 
@@ -1044,6 +1045,73 @@ def s15_deref_known_null(prog, ctx, fns):
                      key="deref-null:%s:%s" % (f.name, name))
     if n == 0:
         ctx.ok("S15", "no pointer is dereferenced under a test that says it is NULL", "lib/", "%d functions" % len(fns))
+
+
+def s16_guard_complete(prog, ctx, fns):
+    """S16: an argument guard `if (a == NULL || b == NULL || ...) return <error>;` turns the call down for EACH of the arguments it names:
+    with any one of them NULL (and the others not) the statement behind the guard is not reached.  (`a == NULL && b == NULL` lets a single
+    NULL through to the code that dereferences it.)"""
+    n = 0
+    for f in fns:
+        if f.body is None or f.body.k != "CompoundStmt":
+            continue
+        cfg = f.cfg
+        pn = set(f.param_names())
+        for st in f.body.children[:6]:
+            if st.k != "IfStmt" or st.child("cond") is None or st.child("then") is None:
+                continue
+            th = st.child("then")
+            rets = [x for x in th.walk() if x.k == "ReturnStmt"]
+            if not rets or any(x.k in ("CallExpr",) and x.j.get("callee") not in (None,) for x in th.walk() if x.k == "CallExpr"):
+                continue
+            named = []
+            for x in st.child("cond").walk():
+                if x.k == "BinaryOperator" and x.j.get("op") == "==" and (x.children[0].is_null_const() or x.children[1].is_null_const()):
+                    o = x.children[1] if x.children[0].is_null_const() else x.children[0]
+                    if o.strip().k == "DeclRefExpr" and o.strip().j.get("name") in pn:
+                        named.append(o.strip().j["name"])
+                elif x.k == "UnaryOperator" and x.j.get("op") == "!" and x.children[0].strip().k == "DeclRefExpr" and x.children[0].strip().j.get("name") in pn \
+                        and (x.children[0].strip().j.get("ct") or "").endswith("*"):
+                    named.append(x.children[0].strip().j["name"])
+            named = sorted(set(named))
+            if len(named) < 2:
+                continue
+            # every named argument is a disjunct of its own at the top level of the condition
+            def disj(e):
+                e2 = e.strip()
+                if e2.k == "BinaryOperator" and e2.j.get("op") == "||":
+                    return disj(e2.children[0]) + disj(e2.children[1])
+                return [e2]
+            tops = disj(st.child("cond"))
+            n += 1
+            bad = []
+            for p9 in named:
+                alone = False
+                for t9 in tops:
+                    tt = render(t9).replace(" ", "")
+                    if tt in ("%s==NULL" % p9, "NULL==%s" % p9, "!%s" % p9, "%s==0" % p9):
+                        alone = True
+                if not alone:
+                    for t9 in tops:
+                        if t9.k != "BinaryOperator" or t9.j.get("op") != "&&":
+                            continue
+
+                        def conj(e):
+                            e2 = e.strip()
+                            if e2.k == "BinaryOperator" and e2.j.get("op") == "&&":
+                                return conj(e2.children[0]) + conj(e2.children[1])
+                            return [e2]
+                        plain = [render(c9).replace(" ", "") for c9 in conj(t9)]
+                        tests = [q9 for q9 in named if any(pl in ("%s==NULL" % q9, "NULL==%s" % q9, "!%s" % q9, "%s==0" % q9) for pl in plain)]
+                        if p9 in tests and len(tests) >= 2:
+                            bad.append(p9)
+            if bad:
+                ctx.fail("S16", "%s: the argument guard covers each argument it names" % f.name, st.child("cond").where,
+                         "`%s`: `%s` is refused only together with another argument - alone it passes the guard and is dereferenced behind it" % (
+                             render(st.child("cond"))[:70], bad[0]), key="guard:%s:%s" % (f.name, bad[0]))
+            else:
+                ctx.ok("S16", "%s: the argument guard covers each argument it names" % f.name, st.child("cond").where, "%s: each a disjunct of its own" % named)
+    ctx.counts["S16 argument guards"] = n
 
 
 NARROW = ("unsigned char", "signed char", "char", "short", "unsigned short", "_Bool", "bool")
